@@ -134,7 +134,10 @@ def r15_2(ctx, b, rc, info):
     # when the offset is written as a difference of points, its operands must be the *arguments* dst and src_rect.min
     # (not the clamped rectangle: the property maps src_rect.min + (i,j) to dst + (i,j) for the rectangle as passed in)
     if is_call(T, 'ops::Sub::sub') and len(T[2]) == 2:
-        a0, a1 = strip_all(T[2][0]), strip_all(T[2][1])
+        def unvec(t):
+            t = strip_all(t)
+            return strip_all(t[2][0]) if is_call(t, '::to_vector') and len(t[2]) == 1 else t
+        a0, a1 = unvec(T[2][0]), unvec(T[2][1])
         ok_ops = a0 == ('param', P_DST) and a1[0] == 'field' and a1[2] == 'min' and strip_all(a1[1]) == ('param', P_SRCRECT)
         ctx.check(ok_ops, R, key + '|offset operands', call_line(b, trs[0][0]), 'offset = dst - src_rect.min of the arguments as passed',
                   'the source-to-destination offset is %s: it must be the dst argument minus the min corner of the src_rect argument as passed in; taken from the rectangle after clamping to the source, a src_rect that starts outside the source lands shifted' % fmt(b, T))
@@ -236,4 +239,4 @@ def run(ctx):
         if info is not None:
             r15_2(ctx, b, rc, info)
     import engine
-    engine.run_rules(ctx, [lambda c: r15_3(c, b), r15_4, dt.r03_6])
+    engine.run_rules(ctx, [lambda c: r15_3(c, b), r15_4, dt.r03_6, dt.r03_1])
